@@ -424,6 +424,11 @@ impl<T: BitWrite> PackedWrite for T {
         };
 
         if let Some((lower, upper)) = range {
+            if value < lower || value > upper {
+                return Err(
+                    ErrorKind::ValueNotInRange(value as i64, lower as i64, upper as i64).into(),
+                );
+            }
             let range = upper - lower;
             let offset_bits = range.leading_zeros() as usize;
             let bytes = (value - lower).to_be_bytes();
